@@ -32,6 +32,7 @@ CT_OPS = [
 ]
 QUICK_OPS = ["sc_mul", "sc_invert", "ed_mul", "ed_mul_base", "ed_multiscalar_2", "mont_mul", "ed_to_montgomery", "sc_from_bytes_mod_order_wide",
              "ed_add", "mont_mul_clamped", "ris_from_uniform_bytes", "sig_sign", "x25519", "ed_ct_eq"]
+SCALAR_OPS = [o for o in CT_OPS if o.startswith("sc_")]
 TABLE_OPS = [o for o in CT_OPS if o.startswith("ed_table_")]
 CONTROLS = ["vartime_double_base", "vartime_multiscalar"]
 
@@ -136,10 +137,15 @@ def run(pid, tier, log, scratch):
     if tier == "quick":
         # every operation of the list on the default build (except the three slowest table radices), a thinner
         # secret alphabet than the thorough tier; the core operations again on the serial and IFMA builds
-        plan = [("simd", True, [o for o in CT_OPS if o not in TABLE_OPS[2:]]), ("serial64", True, QUICK_OPS[:7]), ("avx512", True, ["ed_mul", "ed_mul_secret_point", "ed_multiscalar_2"])]
+        plan = [("simd", True, [o for o in CT_OPS if o not in TABLE_OPS[2:]]), ("serial64", True, QUICK_OPS[:7]), ("avx512", True, ["ed_mul", "ed_mul_secret_point", "ed_multiscalar_2"]),
+                # the 32-bit and fiat backends have their own scalar and field code: every scalar kernel plus one
+                # operation per point-arithmetic family
+                ("serial32", True, SCALAR_OPS + ["ed_mul", "mont_mul", "ed_compress", "sig_sign"]),
+                ("fiat64", True, ["sc_mul", "sc_invert", "ed_mul", "mont_mul"]),
+                ("fiat32", True, ["sc_mul", "sc_sub", "ed_mul", "mont_mul"])]
     else:
         plan = [("simd", True, CT_OPS), ("simd", False, [o for o in CT_OPS if o not in TABLE_OPS]), ("serial64", True, CT_OPS),
-                ("serial32", True, [o for o in CT_OPS if o not in TABLE_OPS[1:]]), ("fiat64", True, QUICK_OPS), ("fiat32", True, QUICK_OPS),
+                ("serial32", True, [o for o in CT_OPS if o not in TABLE_OPS[1:]]), ("fiat64", True, QUICK_OPS + [o for o in SCALAR_OPS if o not in QUICK_OPS]), ("fiat32", True, QUICK_OPS + [o for o in SCALAR_OPS if o not in QUICK_OPS]),
                 ("avx512", True, IFMA_OPS), ("avx512", False, IFMA_OPS[:3])]
     secs = secrets(tier)
     sdir = os.path.join(scratch, "secrets")
